@@ -5,6 +5,7 @@ import (
 	"go/ast"
 	"go/token"
 	"go/types"
+	"strings"
 
 	"golang.org/x/tools/go/packages"
 
@@ -197,14 +198,6 @@ func C02ranges(p *load.Program, run *report.Run) {
 			bad = fmt.Sprintf("the evaluator announces %v, expected offset %d and count %d", e.sent, n0, n1)
 		case len(g.checked) != 2 || g.checked[0] != n0 || g.checked[1] != n1 || g.why != "":
 			bad = fmt.Sprintf("the garbler checks the announced range against %v %s", g.checked, g.why)
-		case e.otLo != n0 || e.otHi != n0+n1 || g.otLo != n0 || g.otHi != n0+n1:
-			bad = fmt.Sprintf("OT ranges: garbler [%d,%d), evaluator [%d,%d), expected [%d,%d)", g.otLo, g.otHi, e.otLo, e.otHi, n0, n0+n1)
-		case e.flagsLen != n1:
-			bad = fmt.Sprintf("%d choice flags for %d evaluator input bits", e.flagsLen, n1)
-		case e.outLo != nw-nout:
-			bad = fmt.Sprintf("the evaluator returns for result 0 the label of wire %d, the outputs start at %d", e.outLo, nw-nout)
-		case g.outLo != nw-nout:
-			bad = fmt.Sprintf("the garbler decodes result 0 against wire %d, the outputs start at %d", g.outLo, nw-nout)
 		}
 		if bad != "" {
 			run.Violate("wire-range-agreement", key, p.Rel(fe.Pos()), bad, nil)
@@ -212,5 +205,25 @@ func C02ranges(p *load.Program, run *report.Run) {
 			run.OK("wire-range-agreement", key, p.Rel(fe.Pos()), "")
 		}
 	}
+	// the OT window, the choice flags and the output wires: affine facts of the SSA form
+	sg, e1 := p.Func("circuit", "Garbler")
+	se, e2 := p.Func("circuit", "Evaluator")
+	if e1 != nil || e2 != nil {
+		run.Undecided("wire-range-agreement", "circuit.Garbler/Evaluator/windows", "", "role functions not found")
+	} else {
+		ef := ssaRanges(se, nil)
+		gf := ssaRanges(sg, ef.sent)
+		key := "circuit.Garbler/Evaluator/windows"
+		switch bad := checkSSARanges(gf, ef); {
+		case strings.HasPrefix(bad, "undecided: "):
+			run.Undecided("wire-range-agreement", key, p.Rel(se.Pos()), strings.TrimPrefix(bad, "undecided: "))
+		case bad != "":
+			run.Violate("wire-range-agreement", key, p.Rel(se.Pos()), bad, nil)
+		default:
+			run.OK("wire-range-agreement", key, p.Rel(se.Pos()), fmt.Sprintf("OT window [I0, I0+I1) on both sides, %d+%d output accesses at NumWires-Outputs.Size()+i", len(gf.outputs), len(ef.outputs)))
+		}
+		run.Count("wire-element-accesses", len(gf.elems)+len(ef.elems))
+	}
 	run.Floor("width-assignments", 2)
+	run.Floor("wire-element-accesses", 4)
 }
